@@ -138,7 +138,7 @@ func TestVerifC11Loop(t *testing.T) {
 
 		// ------------------------------------------------------------ generate
 		nPods := rapid.IntRange(1, 7).Draw(t, "nPods")
-		nTasks := rapid.SampledFrom([]int{1, 2, 2, 2, 3, 3}).Draw(t, "nTasks")
+		nTasks := rapid.SampledFrom([]int{2, 2, 3, 1, 2, 3}).Draw(t, "nTasks")
 		// the case works on a small alphabet of resources / target types so that tasks and pods meet
 		resAlpha := rapid.SliceOfNDistinct(rapid.SampledFrom(c11AllRes), 1, 3, rapid.ID[corev1.ResourceName]).Draw(t, "resources")
 		tgtAlpha := rapid.SliceOfNDistinct(rapid.SampledFrom(c11AllTargets), 1, 2, rapid.ID[ReleaseTargetType]).Draw(t, "targetTypes")
@@ -169,17 +169,21 @@ func TestVerifC11Loop(t *testing.T) {
 		// the lists of memoryevict even measure the same pod differently)
 		amounts := make([][]c11Amounts, nTasks)
 		infoDiffers := false
+		infosMayDiffer := rapid.IntRange(0, 4).Draw(t, "infosMayDiffer") == 0
 		for k := range tasks {
 			tk := &c11Task{Reason: fmt.Sprintf("task%d", k), Target: rapid.SampledFrom(tgtAlpha).Draw(t, "target"),
 				Release: map[corev1.ResourceName]int64{}, Restrict: map[corev1.ResourceName]bool{}, Mode: make([]int, nPods)}
-			switch rapid.IntRange(0, 19).Draw(t, "releaseShape") {
-			case 0:
+			switch rapid.IntRange(0, 29).Draw(t, "releaseShape") {
+			case 28:
 				tk.NilRL = true
-			case 1: // empty list
+			case 29: // empty list
 			default:
 				rs := rapid.SliceOfNDistinct(rapid.SampledFrom(resAlpha), 1, 2, rapid.ID[corev1.ResourceName]).Draw(t, "releaseRes")
 				for _, r := range rs {
-					v := rapid.Int64Range(0, 14).Draw(t, "releaseAmount") * scale
+					v := rapid.Int64Range(1, 8).Draw(t, "releaseAmount") * scale
+					if rapid.IntRange(0, 11).Draw(t, "releaseZero") == 0 {
+						v = 0 // reachable: the allocatable tasks publish a zero target for a resource the node does not report
+					}
 					if scale > 1 && v > 0 {
 						v += rapid.Int64Range(-1, 1).Draw(t, "releaseJitter")
 					}
@@ -207,7 +211,7 @@ func TestVerifC11Loop(t *testing.T) {
 			amounts[k] = make([]c11Amounts, nPods)
 			for p := 0; p < nPods; p++ {
 				amounts[k][p] = base[p]
-				if rapid.IntRange(0, 11).Draw(t, "infoDiffers") == 0 {
+				if infosMayDiffer && rapid.IntRange(0, 2).Draw(t, "infoDiffers") == 0 {
 					amounts[k][p] = genAmounts(fmt.Sprintf("info%d/%d", k, p))
 					infoDiffers = true
 				}
@@ -216,7 +220,7 @@ func TestVerifC11Loop(t *testing.T) {
 		}
 		ex := &c11Exec{podIdx: map[string]int{}, already: make([]bool, nPods), outcomes: make([][]bool, nPods), calls: make([]int, nPods),
 			done: make([]bool, nPods), mark: rapid.Bool().Draw(t, "executorRemembersEvictions")}
-		failBias := rapid.IntRange(0, 3).Draw(t, "failBias")
+		failBias := rapid.SampledFrom([]int{1, 2, 0, 3}).Draw(t, "failBias")
 		pods := make([]*corev1.Pod, nPods)
 		for p := range pods {
 			name := fmt.Sprintf("p%d", p)
@@ -390,7 +394,7 @@ func TestVerifC11Loop(t *testing.T) {
 			}
 			return out
 		}
-		sawFail, sawFreesNothingOwn, sawPendingCounted, sawCrossTaskCredit := false, false, false, false
+		sawFail, sawFreesNothingOwn, sawPendingCounted, sawCrossTaskCredit, sawPendingLaterCovers := false, false, false, false, false
 		var viol []func() bool
 		for _, e := range ex.events {
 			if e.Kind == "asked" {
@@ -432,6 +436,23 @@ func TestVerifC11Loop(t *testing.T) {
 				c.Violation(t, "evict:after-target-met", "task%d evicted p%d although its target %s was already covered by the victims so far %v%s",
 					k, p, c11Fmt(tk.Release, tk.NilRL), victims, describe())
 				return
+			}
+			{ // stricter reading, only counted: pods of this list that are already evicted but come later would cover the target
+				cover := len(pr) > 0
+				for _, r := range pr {
+					have := sum(lo, k, r)
+					for _, a := range tk.List {
+						if ex.already[a] && !isVictim[a] {
+							have += lo(k, a, r)
+						}
+					}
+					if have < tk.Release[r] {
+						cover = false
+					}
+				}
+				if cover {
+					sawPendingLaterCovers = true
+				}
 			}
 			// order inside the task
 			if pos <= lastPos[k] {
@@ -558,6 +579,26 @@ func TestVerifC11Loop(t *testing.T) {
 				}
 			}
 		}
+		stoppedEarly := false // a task reached its target and left candidates of its list untouched
+		for k := range tasks {
+			if len(positive(k)) == 0 {
+				continue
+			}
+			met := true
+			for _, r := range positive(k) {
+				if sum(lo, k, r) < tasks[k].Release[r] {
+					met = false
+				}
+			}
+			if met {
+				for _, p := range tasks[k].List {
+					if !isVictim[p] && !failedIn[k][p] {
+						stoppedEarly = true
+					}
+				}
+			}
+		}
+		c.ClassIf(stoppedEarly, "task-stopped-with-candidates-left")
 		c.Class(fmt.Sprintf("tasks-with-target:%d", active))
 		c.ClassIf(shareVictim, "tasks-share-a-victim")
 		c.ClassIf(sameTarget, "two-tasks-same-target-type")
@@ -566,6 +607,7 @@ func TestVerifC11Loop(t *testing.T) {
 		c.ClassIf(sawFreesNothingOwn, "evicted-pod-frees-nothing-for-own-task")
 		c.ClassIf(sawFreesNothingOwn && len(viol) == 0, "evicted-pod-frees-nothing-for-own-task-but-helps-another(not asserted)")
 		c.ClassIf(sawPendingCounted, "already-evicted-pod-counted")
+		c.ClassIf(sawPendingLaterCovers, "evicted-although-already-evicted-pods-later-in-the-list-cover-the-target(not asserted)")
 		c.ClassIf(sawCrossTaskCredit, "eviction-credited-to-other-task")
 		c.ClassIf(infoDiffers, "info-differs-between-lists")
 		c.ClassIf(nEvict == 0, "no-eviction")
